@@ -75,7 +75,7 @@ func (w *world) preBlock(dt time.Duration) *preObs {
 	}
 	// DA: an item in CHALLENGING status whose proof period is over at this block's time is
 	// resolved by TallyValidityProofs in this block (with whatever proofs are stored by then)
-	if !w.flushing && w.daWillResolve(dt) {
+	if !w.flushing && !w.noDumps && w.daWillResolve(dt) {
 		p.da = w.daPreDump(w.da)
 	}
 	return p
@@ -141,6 +141,9 @@ func (w *world) postBlock(p *preObs) {
 
 // dumpTally records what Keeper.Tally reads and what it returns (CTally case).
 func (w *world) dumpTally(tag string) (validatorsWithVotes, pools int) {
+	if w.noDumps {
+		return 0, 0
+	}
 	ctx, _ := w.h.Ctx().CacheContext()
 	sk := w.h.App.StakingKeeper
 	k := w.h.App.LiquidityincentiveKeeper
